@@ -123,6 +123,10 @@ def fn_case(rng):
 
 
 def fn_leg(acc, srv, rng, n):
+    from ..core import dropped_groups
+    if "fn_formulas" in dropped_groups():
+        acc.count("fn_leg_skipped_adapter_built_without_fn_formulas")
+        return
     cases = [fn_case(rng) for _ in range(n)]
     reqs = [("lp_share", [str(c[0]), str(c[1]), str(c[2]), str(c[3]), str(c[4]), c[5], c[6], str(c[7]), str(c[8])])
             for c, _ in cases]
